@@ -135,7 +135,9 @@ def value_key(v):
         dec = tuple(str(c) for c in v.cats)
     elif isinstance(v, vRecur):
         # exact shape (scalar vs list) matters for purity checks
-        dec = tuple((k, type(x).__name__, tuple(str(i) for i in (x if isinstance(x, (list, tuple)) else [x]))) for k, x in v.items())
+        # part order is not part of the value (dict equality); C19 checks the order of the text
+        dec = tuple(sorted((k, type(x).__name__, tuple(str.__str__(i) if isinstance(i, str) else str(i) for i in (x if isinstance(x, (list, tuple)) else [x])))
+                           for k, x in v.items()))
     elif isinstance(v, (str, int, float)):
         dec = (type(v).__mro__[-2].__name__, str(v)) if not isinstance(v, str) else ("str", str(v))
     else:
